@@ -80,9 +80,10 @@ NumFaults(s) == Cardinality({i \in 1..Len(s) : s[i] \notin NoFault})
 SeqsUpTo(S, n) == UNION {[1..k -> S] : k \in 0..n}
 
 \* at most one fault; nothing follows a fatal parser error (it is unreachable)
-Streams == {s \in SeqsUpTo(Items, MaxLen) :
-              /\ NumFaults(s) <= 1
-              /\ \A i \in 1..Len(s) : s[i] \in ParserErr => i = Len(s)}
+StreamsUpTo(n) == {s \in SeqsUpTo(Items, n) :
+                     /\ NumFaults(s) <= 1
+                     /\ \A i \in 1..Len(s) : s[i] \in ParserErr => i = Len(s)}
+Streams == StreamsUpTo(MaxLen)
 
 \* What a draining consumer must observe.  For "PT" both endings are legal.
 RECURSIVE ExpFrom(_, _, _)
@@ -458,9 +459,12 @@ Termination == <>[](Terminated \/ (taint # {} /\ GoroutinesDone))
 GoroutinesExit == <>[]GoroutinesDone
 
 \* ------------------------------------------------------------ non-vacuity
-\* (evaluated by TLC as ASSUMEs on the constant level)
-ASSUME \E s \in Streams : NumFaults(s) = 0 /\ Len(s) = MaxLen
-ASSUME \A k \in ParserErr \cup WorkerErr : \E s \in Streams : \E i \in 1..Len(s) : s[i] = k
+\* (constant-level ASSUMEs, written as membership tests so that they stay cheap for large MaxLen)
+ASSUME MaxLen >= 1 /\ [i \in 1..MaxLen |-> "V"] \in Streams
+ASSUME \A k \in ParserErr \cup WorkerErr : <<k>> \in Streams
+ASSUME MaxLen >= 2 => (<<"P", "V">> \notin Streams /\ <<"A", "V">> \in Streams /\ <<"A", "B">> \notin Streams)
 ASSUME \A c \in DOMAIN FaultPath : FaultPath[c] \in Items
 ASSUME \A k \in (ParserErr \cup WorkerErr) : \E c \in DOMAIN FaultPath : FaultPath[c] = k
+ASSUME Expected(<<"V", "E", "C", "B", "V">>) = {<<"b", "c", "err">>}
+ASSUME Expected(<<"V", "PT">>) = {<<"b", "err">>, <<"b", "end">>}
 =============================================================================
